@@ -14,22 +14,22 @@ CHECKS = {
    text="TLC checks Binding (agreeing parameters => identical key material, through the DH commutativity law), VerbatimDecision, AcceptsOnlySealed, RcvdInOrder, CtLen on the setup model (4 KEMs x 3 KDFs x 3 AEADs x 4 modes). Conformance: every generated transition (setup_s, setup_r, seal and open in both forms, in- and out-of-order delivery of <=3 messages) is one implementation test whose pre-state is re-created through the public API; plus in-order sessions over plaintext/aad sizes straddling the block sizes.",
    ref="5 (C01)"),
  "C02": dict(cat=MC, tech="TLA+ spec of RFC 9180 with symbolic byte strings; every transition of the setup model for all 48 suites x 4 modes replayed on the real code in exact mode: each returned byte must equal the oracle's evaluation of the specification's term",
-   text="The specification's terms (labels, suite ids, orderings, length prefixes, DeriveKeyPair, nonce computation - all in TLA+) are evaluated by a pure-Python primitive oracle and compared byte for byte with enc, every ciphertext (both forms), every export and the single-shot outputs; in the receiver direction the encapsulated key and ciphertexts handed to the real receiver are computed by the oracle. The transcription is anchored to RFC 9180 A.1.1, A.1.2, A.1.3, A.2.1, A.3.1 (50 published values reproduced from the spec's own terms on every run).",
+   text="The specification's terms (labels, suite ids, orderings, length prefixes, DeriveKeyPair, nonce computation - all in TLA+) are evaluated by a pure-Python primitive oracle and compared byte for byte with enc, every ciphertext (both forms), every export and the single-shot outputs; in the receiver direction the encapsulated key and ciphertexts handed to the real receiver are computed by the oracle. The transcription is anchored to RFC 9180 A.1.1, A.1.2, A.1.3, A.2.1, A.3.1 (50 published values reproduced from the spec's own terms on every run). Also: every length 0..140/300 of info, psk, psk_id; RNG outputs that take the DeriveKeyPair rejection branch; counter jumps on real-setup contexts; random sessions validated as traces with exact obligations.",
    ref="5 (C02), 4.4"),
  "C03": dict(cat=MC, tech="TLA+ DHKEM spec (HpkeKem.tla / MC_Kem): spec-level EncapDecapAgree / PkOfSk / GenIsDerive evaluated by TLC, every enumerated call replayed in exact mode against the oracle-evaluated terms",
-   text="derive_keypair over ikm length classes and seeded values, gen_keypair (first Nsk RNG bytes, spare bytes undrawn), sk_to_pk, encap/decap plain and authenticated for all role assignments x 4 KEMs: every returned byte equals the oracle's evaluation of the RFC 9180 term (X25519 private keys up to clamping).",
+   text="derive_keypair over ikm length classes and seeded values, gen_keypair (first Nsk RNG bytes, spare bytes undrawn), sk_to_pk, encap/decap plain and authenticated for all role assignments x 4 KEMs: every returned byte equals the oracle's evaluation of the RFC 9180 term (X25519 private keys up to clamping); every ikm length 0..140/300; P-256 inputs that take the rejection branch of the candidate loop.",
    ref="5 (C03)"),
  "C04": dict(cat=MC, tech="TLA+ spec (MC_Seq) model-checked by TLC; every seal transition of the bounded model replayed on the real code through the counter/raw-context hooks, ciphertext body compared with the oracle-evaluated term AEAD(key, base_nonce XOR be64(seq))",
-   text="TLC checks NonceIsXor, NoncesDistinct, ConsecutiveSeqs, AdvanceByOne, DeadAfterLimit, LiveBeforeLimit, Latch, Monotone exhaustively on the counter model (carry-boundary start set incl. 2^64-2, 2^64-1 and the latched state, <=4 seals, both forms). Conformance: each generated seal transition (x 3 AEADs x 4 base-nonce patterns) is one implementation test: result kind, error variant, (seq, overflowed) after the call, buffer identity on refusal and the exact ciphertext body; plus all seal histories from 0 through the public API only.",
+   text="TLC checks NonceIsXor, NoncesDistinct, ConsecutiveSeqs, AdvanceByOne, DeadAfterLimit, LiveBeforeLimit, Latch, Monotone exhaustively on the counter model (carry-boundary start set incl. 2^64-2, 2^64-1 and the latched state, <=4 seals, both forms). Conformance: each generated seal transition (x 3 AEADs x 4 base-nonce patterns) is one implementation test: result kind, error variant, (seq, overflowed) after the call, buffer identity on refusal and the exact ciphertext body; plus all seal histories from 0 through the public API only, the failing-seal path (SealError on a lazily mapped 2^36+1 / 2^38-byte plaintext: nothing may change), and an unbounded Apalache inductive proof that the 64-bit counter never reuses a number.",
    ref="5 (C04), 4.2, 4.5"),
  "C05": dict(cat=MC, tech="TLA+ spec with an ideal-AEAD receiver and an adversarial delivery menu, model-checked by TLC; every open transition replayed on the real code (pattern mode), plus random walks of the model from position 0",
-   text="TLC checks AcceptsOnlySealed, VerbatimDecision (completeness: the in-sequence message IS accepted), TamperedRejected, FailureIsStutter, RcvdInOrder, AdvanceByOne, DeadAfterLimit, Latch, Monotone over all interleavings of <=3 seals and <=2-3 adversarial deliveries from the menu (verbatim/replay/future/cross-context, flips, truncations, extensions, substitutions, short, garbage), receiver positions from the carry-boundary set incl. the latched state. Conformance: every open transition is an implementation test (deliveries are byte surgery on the implementation's own ciphertexts), counter state compared after every call.",
+   text="TLC checks AcceptsOnlySealed, VerbatimDecision (completeness: the in-sequence message IS accepted), TamperedRejected, FailureIsStutter, RcvdInOrder, AdvanceByOne, DeadAfterLimit, Latch, Monotone over all interleavings of <=3 seals and <=2-3 adversarial deliveries from the menu (verbatim/replay/future/cross-context, flips, truncations, extensions, substitutions, short, garbage), receiver positions from the carry-boundary set incl. the latched state. Conformance: every open transition is an implementation test (deliveries are byte surgery on the implementation's own ciphertexts), counter state compared after every call; cross-position models (sender at 0, receiver at 2^j for every j) so that every bit of the position matters; random adversarial schedules with counter jumps anywhere in 0..2^64-1 validated by TLC against spec/HpkeTrace.tla.",
    ref="5 (C05), 4.2, 4.5"),
  "C06": dict(cat=MC, tech="TLA+ spec: TLC enumerates every single-bit flip of ciphertext, tag and aad, every truncation/extension, every substitution as delivery arguments; each case replayed on the real code through all opening interfaces (pattern mode) with positive controls",
-   text="TamperedRejected / VerbatimDecision / AcceptsOnlySealed hold on the model for every enumerated modification; conformance: each case is applied to the implementation's own ciphertext/tag/aad and must give OpenError with unchanged counter, while the unmodified in-sequence message is accepted in the same run; single-shot opening interfaces are covered by the C14 model runs (modified deliveries).",
+   text="TamperedRejected / VerbatimDecision / AcceptsOnlySealed hold on the model for every enumerated modification; conformance: each case is applied to the implementation's own ciphertext/tag/aad and must give OpenError with unchanged counter, while the unmodified in-sequence message is accepted in the same run; also with the receiver at 2^32-1 / 2^64-2 / 2^64-1 / latched, with 70000- and 65537-byte aad (modifications around 255/256 and 65535/65536), with bytes appended to the detached tag, and a seeded sweep of tag-only messages cut below the tag length; single-shot opening interfaces are covered by the C14 model runs (modified deliveries).",
    ref="5 (C06)"),
  "C07": dict(cat=MC, tech="Dolev-Yao style search by TLC over the symbolic key schedule (concrete strings over {00,61}: boundary shifts, empty vs zero byte) for Binding/NoSharedPart; every (sender, perturbed receiver) transition replayed in pattern mode",
-   text="TLC: a sender and a receiver share key material iff their parameters agree, and share none of key/nonce/exporter otherwise (all single-component perturbations + boundary shifts, 4 modes, suites incl. AES-256-GCM vs ChaCha20Poly1305). Conformance: the perturbed receiver must reject the sender's ciphertexts and every export must differ between the two sides (controls: the matching receiver of the same model); byte level: every single bit of 32/65-byte info, psk, psk_id, appended/prepended zero bytes.",
+   text="TLC: a sender and a receiver share key material iff their parameters agree, and share none of key/nonce/exporter otherwise (all single-component perturbations + boundary shifts, 4 modes, suites incl. AES-256-GCM vs ChaCha20Poly1305). Conformance: the perturbed receiver must reject the sender's ciphertexts and every export must differ between the two sides (controls: the matching receiver of the same model); byte level: every bit of short and every bit of the boundary bytes (16/32/48/64/128, last) of 160-byte info, psk, psk_id, appended/prepended zero bytes, other encodings / lengths of the encapsulated key; random sessions with one differing receiver argument validated as traces.",
    ref="5 (C07)"),
  "C08": dict(cat=MC, tech="TLC checks AuthSound/PskSound on the symbolic DHKEM + key schedule with impostor senders; every transition replayed in pattern mode",
    text="Impostors (foreign identity pair, honest pkS paired with a foreign private key, non-authenticated mode, wrong PSK incl. every PSK bit) against a receiver expecting pkS / the PSK: ciphertexts rejected, exports differ; the honest sender is accepted in the same model (4 KEMs x {Psk, Auth, AuthPsk}).",
